@@ -277,6 +277,26 @@ def fromNestedToMIIx {ν α} (labels : List Int) (N : Nested ν α) (instArg tim
   let M ← fromNestedToMI N instArg timeArg
   pure { M with rows := relabelInstances labels M.rows }
 
+/-! ### nested frames whose Series cells carry a non-default time index
+
+`from_nested_to_multi_index` puts the cells of one instance side by side (`pd.concat(axis=1)`, all cells
+of the panel share one time index `tl`): the rows of the instance are the cells' readings IN CELL ORDER and
+are keyed by the cells' own time labels, whatever their order.  The model keeps positions in its nested
+frame, so the labelled result is the positional result with label `tl[q]` in place of position `q`. -/
+
+def relabelTimes {β : Type} (tl : List Int) (rows : List ((Int × Int) × β)) :
+    List ((Int × Int) × β) :=
+  rows.map (fun r => ((r.1.1, tl.getD r.1.2.toNat r.1.2), r.2))
+
+/-- `from_nested_to_multi_index` on a frame whose cells carry the time index `tl` (and whose row index
+is `labels`, when given) -/
+def fromNestedToMITx {ν α} (labels : Option (List Int)) (tl : List Int) (N : Nested ν α)
+    (instArg timeArg : Option String) : Except Err (MI ν α) := do
+  let M ← match labels with
+    | some ls => fromNestedToMIIx ls N instArg timeArg
+    | none => fromNestedToMI N instArg timeArg
+  pure { M with rows := relabelTimes tl M.rows }
+
 /-! ### nested <-> long -/
 
 /-- `df.melt(id_vars=<index levels>, var_name=…)`: the value columns stacked one after the other in
@@ -300,6 +320,14 @@ def fromNestedToLong {ν α} (reserved : ν → Bool) (N : Nested ν α)
 def fromNestedToLongIx {ν α} (reserved : ν → Bool) (labels : List Int) (N : Nested ν α)
     (instArg timeArg dimArg : Option String) : Except Err (Long ν α) := do
   let M ← fromNestedToMIIx labels N (some "index") (some "time_index")
+  if M.names.any reserved then throw Err.value
+  let rows := (melt M.names M.rows).map (fun e => (e.1.1.1, e.1.1.2, e.1.2, e.2))
+  pure ⟨instArg.getD "index", timeArg.getD "time_index", dimArg.getD "column", rows⟩
+
+/-- `from_nested_to_long` on a frame whose cells carry the time index `tl` -/
+def fromNestedToLongTx {ν α} (reserved : ν → Bool) (labels : Option (List Int)) (tl : List Int)
+    (N : Nested ν α) (instArg timeArg dimArg : Option String) : Except Err (Long ν α) := do
+  let M ← fromNestedToMITx labels tl N (some "index") (some "time_index")
   if M.names.any reserved then throw Err.value
   let rows := (melt M.names M.rows).map (fun e => (e.1.1.1, e.1.1.2, e.1.2, e.2))
   pure ⟨instArg.getD "index", timeArg.getD "time_index", dimArg.getD "column", rows⟩
